@@ -129,6 +129,12 @@ CONFIGS = [
     # deep random histories (TLC simulation mode): every family at every step
     cfg("deep_s", [ALLMUT + ["salt", "signature", "types", "lookup"]] * 10, nreg=2, maxsize=14, maxt=1,
         inv=("WellFormedInv",), props=("C02Prop", "C03Prop", "C07Prop", "C13Prop", "C08Prop")),
+    # the same with every family of the machine enabled at every step (extensions, adversary, observations)
+    cfg("deep_x", [ALLMUT + ["salt", "signature", "forgesigned", "verify", "recipient_enc", "recipient_add", "recipient_dec",
+                             "sskr_pick", "sskr_join", "proof", "confirm", "types", "obs_types", "attach", "badattach", "obs_attach",
+                             "decorate", "forge", "tamper", "observe", "compare", "lookup"]] * 10, nreg=3, keys=("k1", "k2"), maxsize=16, maxt=1,
+        policies="{<<1, <<<<1, 2>>>>>>, <<1, <<<<2, 2>>>>>>}",
+        inv=("WellFormedInv",), props=("C02Prop", "C03Prop", "C07Prop", "C13Prop", "C08Prop", "C09Prop", "C10Prop", "C11Prop", "C12Prop", "C14Prop", "C17Prop", "C19Prop")),
     # an assertion and its obscured twin
     cfg("twin_q", [["build"], ["navigate"], ["elideone", "compressone", "navigate"], ["assertions"]], maxsize=9, maxt=1,
         shapes="{e \\in ShUpTo(%s, 5) : IsNode(e)}" % B2),
